@@ -121,6 +121,40 @@ def extrapolate_collide(kti: int, level: int, after: int, second: int) -> bool:
     return True
 
 
+def extrapolate_tagged(kti: int, second: int, tagpos: int, explicit: int) -> bool:
+    """
+    Two extrapolated hierarchies whose chains share their first `second` KEY NAMES but carry different tags at position
+    tagpos ({k:a} vs {k:s}): their prefixes are different templates, each hierarchy gets its own types (optionally the
+    first one declares the tagged level explicitly).
+    pre: 0 <= kti < 4 and 2 <= second < L and 0 <= tagpos < second and 0 <= explicit <= 1
+    post: _
+    """
+    oi, bi = OI, BI
+    keys = ORDERS[oi][:L]
+    base = BASETYPES[bi]
+    kt = KEYTYPES[kti]
+    kt = keys[-1] if kt == "LAST" else (base if kt == "BASE" else kt)
+    name = base + SEP + kt
+
+    def tpl(ks, tag):
+        return "/".join("{" + k + (":" + tag if i == tagpos else "") + "}" for i, k in enumerate(ks))
+
+    templates = {}
+    if explicit:
+        templates[base + SEP + "lvl"] = tpl(keys[:tagpos + 1], "a")
+    templates[name] = tpl(keys, "a")
+    okeys = keys[:second] + ["z1", "z2"]
+    templates["other" + SEP + "z2"] = tpl(okeys, "s")
+    to_ext = [name, "other" + SEP + "z2"]
+    got = conf_util.extrapolate_templates(dict(templates), list(to_ext))
+    want = extrapolate_ref(dict(templates), list(to_ext), SEP)
+    if list(got.keys()) != list(want.keys()):
+        return fail("extrapolated-type-names-or-order")
+    if list(got.values()) != list(want.values()):
+        return fail("extrapolated-templates")
+    return True
+
+
 SELECTORS = ["__", "a", "", "shot__", "b__f", "zz"]
 NAMES = ["a__f", "shot__file", "b__f", "ab", "p", "shot"]
 
